@@ -38,7 +38,7 @@ RT_MODES = ["vasp", "abinit", "aims", "castep", "dftbp", "elk", "lammps", "pwmat
 
 
 def units(tier):
-    u = [("units", c) for c in CALCS] + [("table", 0), ("lattice", "wien2k"), ("lattice", "cells"), ("lattice", "cp2k"), ("sorting", 3), ("agreement", 0)] + [("roundtrip", m) for m in RT_MODES]
+    u = [("units", c) for c in CALCS] + [("table", 0), ("lattice", "wien2k"), ("lattice", "cells"), ("lattice", "cp2k"), ("sorting", 3), ("agreement", 0)] + [("wien2k", c, k) for c in ("rocksalt", "rocksalt111", "tetragonal") for k in ("first", "last", "mid")] + [("roundtrip", m) for m in RT_MODES]
     if tier == "thorough":
         u += [("sorting", 4)]
     return u
@@ -459,6 +459,163 @@ def _agree(cfs, sc, ds, pts, nd, A, e):
         return cfs.check_agreements_of_displacements(sc, ds, pts, ["file%d" % i for i in range(nd)])
 
 
+# ------------------------------------------------------------------------------- WIEN2k: forces of inequivalent atoms -> all atoms
+def _w2k_case(name):
+    """displaced supercells whose remaining symmetry leaves several atoms equivalent"""
+    from phonopy.structure.atoms import PhonopyAtoms
+    if name == "rocksalt":
+        pts = [[0, 0, 0], [0, .5, .5], [.5, 0, .5], [.5, .5, 0], [.5, .5, .5], [.5, 0, 0], [0, .5, 0], [0, 0, .5]]
+        return PhonopyAtoms(cell=np.eye(3) * 10.7, symbols=["Na"] * 4 + ["Cl"] * 4, scaled_positions=pts), 0, np.array([0.02, 0.0, 0.0])
+    if name == "rocksalt111":
+        pts = [[0, 0, 0], [0, .5, .5], [.5, 0, .5], [.5, .5, 0], [.5, .5, .5], [.5, 0, 0], [0, .5, 0], [0, 0, .5]]
+        return PhonopyAtoms(cell=np.eye(3) * 10.7, symbols=["Na"] * 4 + ["Cl"] * 4, scaled_positions=pts), 4, np.array([0.02, 0.02, 0.02]) / np.sqrt(3)
+    if name == "tetragonal":
+        pts = [[0, 0, 0], [.5, .5, .5], [.3, .3, 0], [.7, .7, 0], [.2, .8, .5], [.8, .2, .5]]
+        return PhonopyAtoms(cell=np.diag([8.7, 8.7, 5.6]), symbols=["Ti"] * 2 + ["O"] * 4, scaled_positions=pts), 0, np.array([0.0, 0.0, 0.02])
+    raise HarnessError(name)
+
+
+def _w2k_scf(path, positions):
+    with open(path, "w") as f:
+        for k, p in enumerate(positions):
+            p = p - np.floor(p)
+            f.write(":POS%03d: ATOM %4d POSITION = %7.5f %7.5f %7.5f  MULTIPLICITY =  1  ZZ= 11.000  Na\n" % (k + 1, k + 1, p[0], p[1], p[2]))
+
+
+def wien2k_unit(u, res):
+    """_distribute_forces(supercell, displacement, forces of the atoms listed in case.scf): forces are symbolic; the result must be the one
+    force field that (a) gives every listed atom its listed force and (b) is carried into itself by every symmetry operation of the
+    displaced supercell (F[g(i)] = R_g F[i]).  Which representative of an orbit the file lists is enumerated (first / last / middle)."""
+    harness.setup()
+    import phonopy.interface.wien2k as w2k
+    from phonopy.structure.atoms import PhonopyAtoms
+    from phonopy.structure.symmetry import Symmetry
+    _, name, pick = u
+    sc, iat, dvec = _w2k_case(name)
+    n = len(sc)
+    disp = np.zeros((n, 3)); disp[iat] = dvec
+    dcell = PhonopyAtoms(cell=sc.cell, positions=sc.positions + disp, symbols=sc.symbols)
+    sym = Symmetry(dcell, 1e-5)
+    ops = sym.symmetry_operations
+    sp = dcell.scaled_positions
+    L = sc.cell
+    perms, Rc = [], []
+    for r, t in zip(ops["rotations"], ops["translations"]):
+        img = sp @ r.T + t
+        pm = []
+        for i in range(n):
+            dd = sp - img[i]; dd -= np.rint(dd)
+            pm.append(int(np.argmin(np.abs(dd).max(axis=1))))
+        perms.append(pm); Rc.append(L.T @ r @ np.linalg.inv(L.T))
+    orbits = {}
+    for i in range(n):
+        orbits.setdefault(min(pm[i] for pm in perms), []).append(i)
+    orbits = {k: sorted({pm[k] for pm in perms}) for k in orbits}
+    if len(ops["rotations"]) < 4 or all(len(o) == 1 for o in orbits.values()):
+        raise HarnessError("wien2k case %s has no equivalent atoms" % name)
+    reps = [o[{"first": 0, "last": -1, "mid": len(o) // 2}[pick]] for o in orbits.values()]
+    # listed forces: an arbitrary vector projected on the site-symmetric subspace of its atom
+    fs = harness.reals("f_%s_%s" % (name, pick), 3 * len(reps))
+    A = harness.box(fs)
+    forces = []
+    for k, a in enumerate(reps):
+        stab = [Rc[g] for g, pm in enumerate(perms) if pm[a] == a]
+        P = sum(stab) / len(stab)
+        f = np.array([symnp.SR(v) for v in fs[3 * k:3 * k + 3]], dtype=object)
+        forces.append(symnp.owned_copy(np.dot(P.astype(object), f), 'f'))
+    tmp = tempfile.mkdtemp(prefix="c17w2k_")
+    try:
+        scf = os.path.join(tmp, "case.scf")
+        _w2k_scf(scf, sp[reps])
+        import io, contextlib
+        with symnp.session({"phonopy.interface.wien2k"}), contextlib.redirect_stdout(io.StringIO()), __import__("warnings").catch_warnings():
+            __import__("warnings").simplefilter("ignore")
+            out = w2k._distribute_forces(sc, disp, forces, scf, 1e-5)
+    finally:
+        import shutil
+        shutil.rmtree(tmp, ignore_errors=True)
+    key0 = "%s:wien2k:%s:%s" % (PID, name, pick)
+    rp = {"case": name, "pick": pick}
+    if out is False or len(out) != n:
+        conf, what = replay_wien2k(name, pick)
+        (res.violations if conf else res.unconfirmed).append({"key": key0 + ":refused", "what": "valid case.scf refused; " + what, "replay": rp})
+        return res
+    F = [list(np.asarray(x, dtype=object).ravel()) for x in out]
+    got, want = [], []
+    for k, a in enumerate(reps):
+        got += F[a]; want += list(np.asarray(forces[k], dtype=object).ravel())
+    v, m, idx = harness.assert_equal(res, "every atom listed in case.scf receives its listed force (%s, %s representative)" % (name, pick), got, want, A, tol=1e-9)
+    _w2k_decide(res, v, key0 + ":listed", name, pick, rp)
+    got, want = [], []
+    for g, pm in enumerate(perms):
+        for i in range(n):
+            got += F[pm[i]]; want += list(np.dot(Rc[g].astype(object), np.array(F[i], dtype=object)))
+    v, m, idx = harness.assert_equal(res, "distributed forces are carried into themselves by all %d symmetry operations of the displaced supercell (%s, %s representative)" % (len(perms), name, pick),
+                                     got, want, A, tol=1e-9, chunk=24)
+    _w2k_decide(res, v, key0 + ":equivariant", name, pick, rp)
+    res.twins.append({"name": "wien2k twin: orbit sizes %s" % sorted(len(o) for o in orbits.values()), "verdict": "sat"})
+    res.samples.append({"unit": res.unit, "operations": len(perms), "listed_atoms": reps, "atoms": n})
+    return res
+
+
+def _w2k_decide(res, v, key, name, pick, rp):
+    if v == "unknown":
+        res.notes.append("inconclusive: " + key)
+    elif v == "sat":
+        conf, what = replay_wien2k(name, pick)
+        (res.violations if conf else res.unconfirmed).append({"key": key, "what": what, "replay": rp})
+
+
+@symnp.outside_session
+def replay_wien2k(name, pick):
+    """concrete, through the public parser: case.scf files with :POS and :FGL lines for a symmetric force field of a pair-spring model;
+    parse_set_of_forces must return that force field (minus drift)"""
+    import phonopy.interface.wien2k as w2k
+    from phonopy.structure.atoms import PhonopyAtoms
+    from phonopy.structure.symmetry import Symmetry
+    import io, contextlib, shutil, warnings
+    sc, iat, dvec = _w2k_case(name)
+    n = len(sc)
+    disp = np.zeros((n, 3)); disp[iat] = dvec
+    pos = sc.positions + disp
+    L = sc.cell
+    # central pair forces with the minimum-image convention over 27 images: symmetric under every symmetry of the displaced crystal
+    Ftrue = np.zeros((n, 3))
+    for i in range(n):
+        for j in range(n):
+            for s_ in np.ndindex(3, 3, 3):
+                d = pos[j] + (np.array(s_) - 1) @ L - pos[i]
+                r = np.linalg.norm(d)
+                if 1e-8 < r < 0.55 * L[0, 0]:
+                    Ftrue[i] += (1.0 if sc.symbols[i] == sc.symbols[j] else -1.7) * d / r ** 3
+    dcell = PhonopyAtoms(cell=L, positions=pos, symbols=sc.symbols)
+    sym = Symmetry(dcell, 1e-5)
+    ma = sym.get_map_atoms()
+    orbits = {}
+    for i in range(n):
+        orbits.setdefault(int(ma[i]), []).append(i)
+    reps = [o[{"first": 0, "last": -1, "mid": len(o) // 2}[pick]] for o in orbits.values()]
+    tmp = tempfile.mkdtemp(prefix="c17w2k_")
+    try:
+        scf = os.path.join(tmp, "case.scf")
+        _w2k_scf(scf, dcell.scaled_positions[reps])
+        red = np.array([v / np.linalg.norm(v) for v in L])
+        with open(scf, "a") as f:
+            for k, a in enumerate(reps):
+                c = np.linalg.solve(red.T, Ftrue[a])
+                f.write((":FGL%03d:%4d.ATOM" % (k + 1, k + 1)).ljust(29) + "%16.9f%16.9f%16.9f total forces\n" % (c[0], c[1], c[2]))
+        with contextlib.redirect_stdout(io.StringIO()), warnings.catch_warnings():
+            warnings.simplefilter("ignore")
+            out = w2k.parse_set_of_forces([disp], [scf], sc, wien2k_P1_mode=False, symmetry_tolerance=1e-5, verbose=False)
+    finally:
+        shutil.rmtree(tmp, ignore_errors=True)
+    if len(out) != 1:
+        return True, "WIEN2k parse_set_of_forces refused a valid case.scf (%s, %s representative)" % (name, pick)
+    want = Ftrue - Ftrue.mean(axis=0)
+    err = float(np.abs(np.array(out[0]) - want).max())
+    return err > 1e-6 * max(1.0, np.abs(want).max()), "WIEN2k parse_set_of_forces: forces of a symmetric pair model distributed to the wrong atoms / with the wrong rotation (max error %.3g; %s, %s representative)" % (err, name, pick)
+
+
 # ------------------------------------------------------------------------------- structure files (ground facts, not solver claims)
 def _rt_cells():
     from phonopy.structure.atoms import PhonopyAtoms
@@ -526,7 +683,7 @@ def roundtrip_unit(u, res):
 def run_unit(u):
     res = Result("/".join(str(x) for x in u))
     harness.setup()
-    return {"units": units_unit, "table": table_unit, "lattice": lattice_unit, "sorting": sorting_unit, "agreement": agreement_unit, "roundtrip": roundtrip_unit}[u[0]](u, res)
+    return {"units": units_unit, "table": table_unit, "lattice": lattice_unit, "sorting": sorting_unit, "agreement": agreement_unit, "wien2k": wien2k_unit, "roundtrip": roundtrip_unit}[u[0]](u, res)
 
 
 def main(tier, seed):
@@ -534,7 +691,7 @@ def main(tier, seed):
     harness.setup()
     us = units(tier)
     chk.bounds = ["16 calculators (exhaustive)", "lengths in (0.5, 20), angles with |cos| < 0.9, sin > 0.1 and Gram determinant > 0.01", "symbol lists of length <= 3 (quick) / 4 (thorough) over a 3-letter alphabet"]
-    chk.outside = ["structure files as a solver claim (text formats: no solver theory): 8 interfaces that need no calculator-specific extras are evaluated on three concrete cells as ground facts; the other 8 interfaces and FORCE_SETS pairing through parsers are not covered", "load()/load_helper defaults", "CODATA vintage: constants are those of phonopy/units.py"]
+    chk.outside = ["structure files as a solver claim (text formats: no solver theory): 8 interfaces that need no calculator-specific extras are evaluated on three concrete cells as ground facts; the other 8 interfaces are not covered", "FORCE_SETS pairing through parsers other than WIEN2k's symmetry distribution (3 displaced supercells, 3 choices of listed representative) and check_agreements_of_displacements", "load()/load_helper defaults", "CODATA vintage: constants are those of phonopy/units.py"]
     chk.assumptions = ["decimal literals of units.py taken at face value as exact rationals, pi boxed to 20 digits, square roots as algebraic numbers",
                        "cos/sin uninterpreted with sin^2+cos^2=1; CrossHair verdict 'Confirmed over all paths' only"]
     chk.run_units(run_unit, us)
